@@ -3,7 +3,11 @@ package chain
 import (
 	"context"
 	"fmt"
+	"github.com/oasisprotocol/oasis-core/go/common/crypto/hash"
+	memorySigner "github.com/oasisprotocol/oasis-core/go/common/crypto/signature/signers/memory"
 	vaultState "github.com/oasisprotocol/oasis-core/go/consensus/cometbft/apps/vault/state"
+	roothash "github.com/oasisprotocol/oasis-core/go/roothash/api"
+	"github.com/oasisprotocol/oasis-core/go/roothash/api/commitment"
 	"math"
 	"sort"
 	"strings"
@@ -255,6 +259,9 @@ func (g *TxGen) Gen(t *rapid.T) *TxDesc {
 	if strings.Contains(g.Profile, "debond") {
 		kinds = append(kinds, "escrow", "escrow", "escrow", "reclaim", "reclaim", "reclaim", "reclaim", "reclaim", "reclaim")
 	}
+	if g.W.Runtime != nil {
+		kinds = append(kinds, "rtEvidence", "rtSubmitMsg")
+	}
 	if strings.Contains(g.Profile, "vault") && g.W.Spec.WithVault {
 		kinds = append(kinds, "vaultCreate", "vaultAction", "vaultAction", "vaultAction", "vaultAction", "vaultAction", "withdraw", "withdraw", "withdraw", "withdraw", "fundVault", "fundVault")
 	}
@@ -295,6 +302,31 @@ func (g *TxGen) Gen(t *rapid.T) *TxDesc {
 	switch kind {
 	case "transfer":
 		method, body = staking.MethodTransfer, &staking.Transfer{To: g.pickAddr(t, "to"), Amount: g.amount(t, bal, "amt")}
+	case "rtEvidence":
+		// equivocation evidence: two different proposal headers for one round signed by the same key - a registered
+		// node's key (slashed) or a key that belongs to no node at all ("fake but valid" evidence)
+		var accused signature.Signer
+		if na := g.nodeActor(t, a); na != nil && na.Node != nil && rapid.Bool().Draw(t, "evRegistered") {
+			accused = na.Node.ID
+		} else {
+			accused = memorySigner.NewTestSigner(fmt.Sprintf("verif accused %d", rapid.IntRange(0, 3).Draw(t, "evAccused")))
+		}
+		round := uint64(rapid.IntRange(0, 3).Draw(t, "evRound"))
+		mk := func(tag byte) commitment.Proposal {
+			p := commitment.Proposal{NodeID: accused.Public(), Header: commitment.ProposalHeader{Round: round, PreviousHash: hash.NewFromBytes([]byte{1}), BatchHash: hash.NewFromBytes([]byte{tag})}}
+			if err := p.Sign(accused, g.W.Runtime.ID); err != nil {
+				panic(err)
+			}
+			return p
+		}
+		tagB := byte(3)
+		if rapid.IntRange(0, 5).Draw(t, "evSameHeader") == 0 {
+			tagB = 2 // no equivocation: rejected by the stateless check
+		}
+		method, body = roothash.MethodEvidence, &roothash.Evidence{ID: g.W.Runtime.ID, EquivocationProposal: &roothash.EquivocationProposalEvidence{ProposalA: mk(2), ProposalB: mk(tagB)}}
+	case "rtSubmitMsg":
+		method, body = roothash.MethodSubmitMsg, &roothash.SubmitMsg{ID: g.W.Runtime.ID, Tag: uint64(rapid.IntRange(0, 2).Draw(t, "msgTag")),
+			Fee: q(uint64(rapid.IntRange(0, 3).Draw(t, "msgFee"))), Tokens: q(uint64(rapid.SampledFrom([]int{0, 1, 7, 50}).Draw(t, "msgTokens"))), Data: []byte{byte(rapid.IntRange(0, 255).Draw(t, "msgData"))}}
 	case "fundVault":
 		to := a.Addr
 		if len(g.Vaults) > 0 {
